@@ -19,6 +19,18 @@ CLAIMED = {
             'DESIGN.md 3.1, 4 C14'),
 }
 
+CLAIMED['C04'] = ('NumpyIndex, Gen_C04',
+    'TLA+ model of NumPy indexing + FCSData metadata expectation; TLC enumerates the whole key grammar at depth 1, all '
+    'chains of 2 (exhaustive) and sampled chains of 3; each state replayed as read and as assignment into real FCSData; '
+    'the spec itself is validated against plain ndarray on every case',
+    'TLC checks MetaAligned/view invariants on the indexing model and enumerates ~10^5 keys and key chains; the '
+    'implementation is executed on every enumerated case (values, seven metadata attributes via public accessors, '
+    'scalar-ness, write-through). Exhaustive inside the menus, sampling for chains of three.',
+    'Trusted: TLC, value parser, plain ndarray as reference for the spec (disagreement = exit 2), origin-coded sample. '
+    'Other forms (numpy ints/arrays, boolean column lists) accept refusal or aligned result. Known finding '
+    'C04/rowvector-subselect is suppressed only for the exact known behaviour.',
+    'DESIGN.md 3.2, 4 C04')
+
 NOT_APPLICABLE = {
     'C09': 'continuum numerics only (L-BFGS-B recovery of real parameters, real-analytic identities of closures): no '
            'state, history or case analysis for a TLA+ specification to enumerate; discrete fragment (Fit refuses <3 '
